@@ -55,7 +55,7 @@ func (e *Exec) funcEnv(fr *Frame, st *State) *Env {
 	// source-level locals: the value a named variable has at the current program
 	// point is its nearest definition on the dominator chain - a phi carrying the
 	// variable's name, or a DebugRef (an assignment to, or a use of, the variable)
-	if fr.top && e.curBlock != nil {
+	if e.siteFrame(fr) && e.curBlock != nil && e.curBlock.Parent() == fr.fn {
 		nrange := 0
 		loops := findLoops(fr.fn)
 		var scanning *ssa.BasicBlock
@@ -152,8 +152,12 @@ func (e *Exec) funcEnv(fr *Frame, st *State) *Env {
 			env.vars[name] = v
 		}
 	}
-	if fr.entry != nil && fr.top {
-		o := &Env{e: e, pkg: env.pkg, vars: map[string]Val{}, st: fr.entry, ctx: e.name + " old()"}
+	entry := fr.entry
+	if !fr.top && e.siteFrame(fr) && fr.parent != nil {
+		entry = fr.parent.entry // old() in a site section means the state at the entry of the function under contract
+	}
+	if entry != nil && e.siteFrame(fr) {
+		o := &Env{e: e, pkg: env.pkg, vars: map[string]Val{}, st: entry, ctx: e.name + " old()"}
 		for k, v := range env.vars {
 			o.vars[k] = v
 		}
@@ -480,7 +484,7 @@ func (e *Exec) callArgs(fr *Frame, st *State, c *ssa.CallCommon) []Val {
 
 func (e *Exec) execCall(fr *Frame, st *State, in ssa.CallInstruction, c *ssa.CallCommon) Val {
 	v := e.execCall1(fr, st, in, c)
-	if fr.top && e.fc != nil {
+	if e.siteFrame(fr) && e.fc != nil {
 		if cs, ok := e.callOrd[in.(ssa.Instruction)]; ok && e.hasSiteAfter(cs) {
 			if val, ok := in.(ssa.Value); ok && val.Type() != nil {
 				fr.vals[val] = v
@@ -593,7 +597,7 @@ func (e *Exec) execCall1(fr *Frame, st *State, in ssa.CallInstruction, c *ssa.Ca
 	if resT.Len() == 1 {
 		rt = resT.At(0).Type()
 	}
-	if fr.top && e.fc != nil {
+	if e.siteFrame(fr) && e.fc != nil {
 		if cs, ok := e.callOrd[in.(ssa.Instruction)]; ok {
 			for _, sec := range e.fc.Calls {
 				if sec.Callee == cs.name && sec.N == cs.k {
@@ -676,7 +680,7 @@ func (e *Exec) inlineCall(fr *Frame, st *State, in ssa.Instruction, callee *ssa.
 	if !fr.top {
 		site = fr.site + "/" + fmt.Sprintf("%s#call:%d", fnKey(fr.fn), localOrdinal(fr.fn, in, "call"))
 	}
-	nf := &Frame{fn: callee, vals: map[ssa.Value]Val{}, addrs: map[ssa.Value]*Addr{}, depth: fr.depth + 1, site: site, params: args, fvals: binds}
+	nf := &Frame{fn: callee, vals: map[ssa.Value]Val{}, addrs: map[ssa.Value]*Addr{}, depth: fr.depth + 1, site: site, params: args, fvals: binds, parent: fr}
 	for i, p := range callee.Params {
 		if i < len(args) {
 			nf.vals[p] = coerce(args[i], p.Type())
@@ -732,7 +736,7 @@ func (e *Exec) callModular(fr *Frame, st *State, in ssa.Instruction, fc *FuncCon
 	fc.Used = true
 	k := 0
 	siteName := lastSeg(calleeName)
-	if cs, ok := e.callOrd[in]; ok && fr.top {
+	if cs, ok := e.callOrd[in]; ok && e.siteFrame(fr) {
 		k, siteName = cs.k, cs.name
 	} else {
 		e.callSeen[calleeName]++
@@ -861,7 +865,7 @@ func (e *Exec) callModular(fr *Frame, st *State, in ssa.Instruction, fc *FuncCon
 	// instantiations of the callee's universally quantified ghost variables
 	var insts []map[string]Val
 	if len(fc.Forall) > 0 {
-		if cs, ok := e.callOrd[in]; ok && fr.top && e.fc != nil {
+		if cs, ok := e.callOrd[in]; ok && e.siteFrame(fr) && e.fc != nil {
 			for _, sec := range e.fc.Calls {
 				if sec.Callee == cs.name && sec.N == cs.k {
 					cenv := e.funcEnv(fr, pre)
